@@ -9,7 +9,7 @@ well-formedness is checked by kernel evaluation.  The reserved-bit mask is
 compares it, frame by frame, with an independent Python-side table written
 from the KNX specifications.
 -/
-import XknxVerif.Lemmas.APCITableWF
+import XknxVerif.Lemmas.APCIReencode
 
 namespace XknxVerif.Props.C05
 open XknxVerif.APCI
@@ -72,9 +72,25 @@ theorem mask_transport_bits (raw : Bytes) (s : Service) (hd : decodeAPDU raw = .
     · cases h1
   · cases hvals
 
-/-- When does re-encoding succeed?  Not always - e.g. a received A_FilterTable_Write
-with `number = 0` or an A_MemoryExtended_Read with `count > 250` decodes but is
-refused by `to_knx`; the property's antecedent "whenever it can be encoded" is needed. -/
+/-- When does re-encoding succeed?  For every decoded object of a row whose integer fields
+all accept their full wire range - so the antecedent "whenever it can be encoded again" is
+automatically met there and `reencode` applies to EVERY accepted APDU of these services. -/
+theorem reencode_possible (raw : Bytes) (s : Service) (row : Row)
+    (hd : decodeAPDU raw = .ok s) (hrow : table[s.row]? = some row)
+    (hfull : row.variants.all (fun v => v.body.all fullRange) = true)
+    (hn : (row.name == "ADCResponse") = false) : ∃ raw', encodeAPDU s = some raw' :=
+  encodeAPDU_of_decodeAPDU raw s row hd hrow hfull hn
+
+/-- The rows NOT covered by `reencode_possible`: the eight services with a documented narrower
+range (`count ≤ 250`, `number` in 0/1..254), whose out-of-range frames decode but are refused by
+`to_knx`, and `ADCResponse` (only because of the proof route; it always re-encodes too). -/
+theorem rows_with_narrow_ranges :
+    (table.filter (fun r => !(r.variants.all (fun v => v.body.all fullRange)) || r.name == "ADCResponse")).map (·.name)
+      = ["MemoryExtendedWrite", "MemoryExtendedRead", "FilterTableRead", "FilterTableResponse",
+         "FilterTableWrite", "RouterMemoryRead", "RouterMemoryResponse", "RouterMemoryWrite", "ADCResponse"] := by
+  decide +kernel
+
+/-- … and there the antecedent is really needed: A_MemoryExtended_Read with count 251 decodes, `to_knx` refuses. -/
 example : ∃ raw s, decodeAPDU raw = .ok s ∧ encodeAPDU s = none :=
   ⟨[0x01, 0xFD, 0xFB, 0, 0, 0], ⟨16, 0, [.int 251, .int 0]⟩, by decide +kernel, by decide +kernel⟩
 
